@@ -469,20 +469,25 @@ def _sum(ex, path, args, kwargs, node, fn):
         raise Unsupported("sum of n-d")
     if kwargs.get("axis") not in (None, -1, 0):
         raise Unsupported("sum over an axis")
-    S = fresh_fn("sum", z3.IntSort(), z3.RealSort() if a.dtype == "real" else z3.IntSort())
-    k = z3.Int(fresh_name("k"))
-    term = (lambda j: z3.If(a.at(j), 1, 0)) if a.dtype == "bool" else a.at
+    from .symexec import make_sum
+    term = (lambda j: z3.If(a.at(j), z3.RealVal(1), z3.RealVal(0))) if a.dtype == "bool" else (lambda j: to_z3(a.at(j), "real"))
     n = to_z3(a.shape[0])
-    path.assume(S(0) == 0, q_forall([k], b_and(0 <= k, k < n), S(k + 1) == S(k) + term(k), pats=[S(k + 1)]))
+    total = make_sum(term, n, path)                     # canonical: the same summand expression denotes the same Sum function
+    k = z3.Int(fresh_name("k"))
     if a.dtype == "bool":
-        path.assume(q_forall([k], b_and(0 <= k, k <= n), b_and(S(k) >= 0, S(k) <= k), pats=[S(k)]))
+        # a count lies between 0 and the number of terms (consequence of the recursion; stated to spare the solver an induction)
+        path.assume(z3.And(total >= 0, total <= z3.ToReal(n)))
+    # sum congruence (Lean: Finset.sum_congr): sums of pointwise equal terms over the same range are equal
     sums = path.ghost.setdefault("sums", [])
-    for (term2, S2, n2, dt2) in sums:
-        if dt2 == ("real" if a.dtype == "real" else "int"):
-            j = z3.Int(fresh_name("j"))
-            path.assume(z3.Implies(z3.And(n == n2, q_forall([j], b_and(0 <= j, j < n), term(j) == term2(j))), S(n) == S2(n2)))
-    sums.append((term, S, n, "real" if a.dtype == "real" else "int"))
-    return S(n)
+    for (term2, total2, n2) in sums:
+        j = z3.Int(fresh_name("j"))
+        path.assume(z3.Implies(z3.And(n == n2, q_forall([j], b_and(0 <= j, j < n), term(j) == term2(j))), total == total2))
+    sums.append((term, total, n))
+    if a.dtype == "int":
+        r = fresh_int("isum")
+        path.assume(z3.ToReal(r) == total)
+        return r
+    return total
 
 
 @model("numpy.any")
